@@ -97,6 +97,9 @@ static void gen(Emitter &em, const Options &opt) {
     emit("sp.split form=cstr ci=0 max=5 sep=- s=610062");
     emit("sp.split form=str ci=0 max=" + SMAX + " sep=- s=610062");
     emit("sp.split form=cstr ci=1 max=" + SMAX + " sep=- s=00");
+    for (const char *form : {"str", "cstr", "char"})
+        for (const char *mx : {"18446744073709551614", "9223372036854775808", "9223372036854775807", "1152921504606846976"})
+            emit(std::string("sp.split form=") + form + " ci=0 max=" + mx + " sep=2c s=612c622c2c63");
 
     // ---- split: every short subject x every short separator (incl. empty, self-overlapping, longer than
     //      the subject) x max_splits x case mode x overload
@@ -138,7 +141,10 @@ static void gen(Emitter &em, const Options &opt) {
                 size_t pl = rng.chance(1, 4) ? 14 + rng.below(5) : rng.below(8);
                 b += rand_bytes(rng, pl, rng.chance(1, 2) ? "abAB,:- xz" : std::string("ab\0\xc3\xa9,a", 7));
             }
-            std::string mx = rng.chance(1, 2) ? SMAX : u(rng.below(7));
+            // huge limits that are not the "unlimited" constant: a limit is an upper bound, never an expected count
+            static const std::vector<std::string> HUGE_MAX = {"18446744073709551614", "18446744073709551613", "9223372036854775807", "9223372036854775808",
+                                                              "4611686018427387904", "1152921504606846976"};
+            std::string mx = rng.chance(1, 2) ? SMAX : rng.chance(1, 5) ? rng.pick(HUGE_MAX) : u(rng.below(7));
             std::string tail = " ci=" + u(rng.below(2)) + " max=" + mx + " sep=" + hex_bytes(sp) + " s=" + hex_bytes(b);
             emit("sp.split form=str" + tail);
             emit("sp.split form=cstr" + tail);
